@@ -166,20 +166,30 @@ def main(run):
                         w_old, e_old = w, e
                         w, e = (copy.deepcopy(w), pickle.loads(pickle.dumps(e))) if (n + len(kind)) % 2 else (pickle.loads(pickle.dumps(w)), copy.deepcopy(e))
                         w_old.update(Q(10 ** 9)); e_old.update(Q(-10 ** 9))
+                        w_h, e_h = w, e
                         run.count("checkpointed-streams")
                     if kind == "feedback" and i % 3 == 2:
                         v = vals[i] = Q(fr(e.get()) if i % 2 else fr(w.mean))      # the observation EQUALS the current estimate
                         fv[i] = fr(v)
+                    # fluent style on some streams: the caller chains on what update() returned (t.update(a).update(b)...) and
+                    # reads the tracker it created
+                    chained = (n + rep + len(kind)) % 4 == 0
+                    if i == 0 or not chained:
+                        w_h, e_h = w, e
+                    if chained and i == 0:
+                        run.count("chained-update-streams")
                     if i % 7 == 3:
-                        w.update(value_i=v)          # documented parameter name, passed by keyword
+                        w_r = w_h.update(value_i=v)          # documented parameter name, passed by keyword
                     else:
-                        w.update(v)
+                        w_r = w_h.update(v)
                     wpaths.add(rec.take())
                     if i % 7 == 5:
-                        e.update(value_i=v)
+                        e_r = e_h.update(value_i=v)
                     else:
-                        e.update(v)
+                        e_r = e_h.update(v)
                     epaths.add(rec.take())
+                    if chained:          # (a tracker whose update() returns nothing cannot be chained: the caller would not)
+                        w_h, e_h = (w_r if w_r is not None else w_h), (e_r if e_r is not None else e_h)
                     if rnd.random() < 0.2:  # reads interleaved with updates are pure
                         _ = (w.var, w.std, w.mean, e.get())
                     w2.update(other[i]); w3.update(a * v + b * other[i])
